@@ -8,7 +8,7 @@
     10  model set_val (real)     fmt r o raw arr vd              -> codes, flags, read-back values
 *)
 From Coq Require Import ZArith List Bool.
-From FxpVerif Require Import Spec NP Store Status Convert Wire.
+From FxpVerif Require Import Spec SpecArith NP Store Status Convert Arith Wire.
 Import ListNotations.
 Open Scope Z_scope.
 
@@ -30,6 +30,10 @@ Fixpoint convert_trace (fs : fmt) (codes : list Z) (steps : list cstep) : list (
   | s :: t => let w := convert (cs_route s) fs codes (cs_fmt s) (cs_r s) (cs_o s) in
               w :: match w with Ok w' => convert_trace (cs_fmt s) (w_codes w') t | _ => [] end
   end.
+
+Definition daop : dec aop := t <- dZ ;; dret (match t with 0 => OpAdd | 1 => OpSub | _ => OpMul end).
+Definition efmt (f : fmt) : list Z := ebool (sg f) ++ [nw f; nf f].
+Definition edy (v : dy) : list Z := [dm v; de v].
 
 Definition ewres (f : fmt) (w : wres) : list Z :=
   elist (fun c => [c]) (w_codes w) ++ ebool (w_ovf w) ++ ebool (w_unf w) ++ ebool (w_inacc w)
@@ -78,5 +82,20 @@ Definition dispatch (req : list Z) : list Z :=
                 (fun '(fs, codes, steps) =>
                    elist (eoutcome (fun w => elist (fun c => [c]) (w_codes w) ++ ebool (w_ovf w) ++ ebool (w_unf w) ++ ebool (w_inacc w)))
                          (convert_trace fs codes steps)) t
+  (* 40: spec of x op y: exact value, optimal format, and the exact value quantized into a target format *)
+  | 40 :: t => run (op <- daop ;; fx <- dfmt ;; a <- dZ ;; fy <- dfmt ;; b <- dZ ;; ft <- dfmt ;; r <- drmode ;; o <- domode ;;
+                    dret (op, fx, a, fy, b, ft, r, o))
+                (fun '(op, fx, a, fy, b, ft, r, o) =>
+                   let ex := exact_codes op fx a fy b in
+                   efmt (grow op fx fy) ++ edy ex ++ [quantize ft r o ex] ++ ebool (ovf_cond ft r ex) ++ ebool (unf_cond ft r ex)
+                   ++ ebool (inacc_cond ft r o ex)) t
+  (* 41: model x op y by the raw method into format fz under modes r o (elementwise lists);
+     42: the same by the repr method *)
+  | 41 :: t => run (op <- daop ;; fx <- dfmt ;; cxs <- dlist dZ ;; fy <- dfmt ;; cys <- dlist dZ ;; fz <- dfmt ;; r <- drmode ;; o <- domode ;;
+                    dret (op, fx, cxs, fy, cys, fz, r, o))
+                (fun '(op, fx, cxs, fy, cys, fz, r, o) => eoutcome (ewres fz) (arith_raw op fx cxs fy cys fz r o)) t
+  | 42 :: t => run (op <- daop ;; fx <- dfmt ;; cxs <- dlist dZ ;; fy <- dfmt ;; cys <- dlist dZ ;; fz <- dfmt ;; r <- drmode ;; o <- domode ;;
+                    dret (op, fx, cxs, fy, cys, fz, r, o))
+                (fun '(op, fx, cxs, fy, cys, fz, r, o) => eoutcome (ewres fz) (arith_repr op fx cxs fy cys fz r o)) t
   | _ => bad_request
   end.
